@@ -22,6 +22,10 @@ use vrl::path::{OwnedTargetPath, PathPrefix};
 use vrl::value::kind::Collection;
 use vrl::value::{Kind, Value};
 
+/// When false (C02's pass) exploration continues past transitions on which a state invariant of
+/// C01/C12 failed: the runtime failures such corrupted states lead to are exactly what C02 forbids.
+static CUT_AFTER_STATE_VIOLATION: std::sync::atomic::AtomicBool = std::sync::atomic::AtomicBool::new(true);
+
 thread_local! {
     static FNS: Vec<Box<dyn vrl::compiler::Function>> = vrlx::fns();
 }
@@ -506,20 +510,9 @@ fn invariants(
                 }
             }
         }
-        if let Some(c) = ti.state.external.verif_target_constant() {
-            acc.bump("c12_constant_checks");
-            if c != view.event {
-                acc.violations.push((
-                    "C12",
-                    Violation::new(
-                        "C12.target-constant",
-                        wit(),
-                        format!("event equals its compile-time constant {}", vv::show(&c)),
-                        format!("event is {}", vv::show(&view.event)),
-                    ),
-                ));
-            }
-        }
+        // (The constant recorded for the external target is never consulted by the compiler — external
+        // queries have no `resolve_constant` — so it is not an "expression treated as constant" in the
+        // sense of C12 and is not judged; DESIGN §8, correction 3.)
     }
     // ---- C02
     let nan = vrlx::nan_error_text();
@@ -673,7 +666,8 @@ pub fn step(cfgs: &[Cfg], st: &St, stmt: &str, acc: &mut Acc) -> Option<St> {
     }
     // 4. successor. A transition on which a state invariant failed is not expanded further: every
     // later statement would only re-report the same corrupted state.
-    if acc.violations.len() > n_viol_before
+    if CUT_AFTER_STATE_VIOLATION.load(std::sync::atomic::Ordering::Relaxed)
+        && acc.violations.len() > n_viol_before
         && acc.violations[n_viol_before..].iter().any(|(t, v)| (*t == "C01" && !v.clause.starts_with("C01.re")) || *t == "C12")
     {
         acc.bump("cut_after_state_violation");
@@ -758,6 +752,7 @@ pub fn explore_all(tier: Tier) -> PmResult {
 
 fn run_for(property: &'static str, tier: Tier) -> Report {
     let mut rep = Report::new(property, tier, "model_checking");
+    CUT_AFTER_STATE_VIOLATION.store(property != "C02", std::sync::atomic::Ordering::Relaxed);
     let res = explore_all(tier);
     let mut states = 0;
     let mut transitions = 0;
